@@ -320,6 +320,7 @@ static int transition(const uint16_t *hist, int d, int opi, char *ckey, int verb
         else if (apply(t, &m, &OPS[hist[i]], 0, "") < 0) dead = 1;
     }
     if (!dead) {
+        vc_asan_check();   /* reports raised by the history prefix belong to the transitions that ended in those ops */
         snprintf(after, sizeof after, "op %d", opi);
         vc_label(OPS[opi].label);
         if (apply(t, &m, &OPS[opi], 1, after) < 0) dead = 1;
